@@ -382,6 +382,24 @@ def partial_sites(repo, fn, include_nested=True):
                 if used_as_index:
                     out.append(Site(f, c, c.args[0], "index = numpy.array(list) without dtype"))
                     continue
+        # json.dumps(x, allow_nan=False) -- directly or through **kwargs prepared with setdefault("allow_nan", False)
+        if d in ("json.dumps", "json.dump") and c.args:
+            strict = any(k.arg == "allow_nan" and isinstance(k.value, ast.Constant) and k.value.value is False for k in c.keywords)
+            for k in c.keywords:
+                if k.arg is None and isinstance(k.value, ast.Name):
+                    for n in body_nodes(f.node):
+                        if isinstance(n, ast.Call) and isinstance(n.func, ast.Attribute) and n.func.attr in ("setdefault", "__setitem__") \
+                                and isinstance(n.func.value, ast.Name) and n.func.value.id == k.value.id and len(n.args) == 2 \
+                                and isinstance(n.args[0], ast.Constant) and n.args[0].value == "allow_nan" \
+                                and isinstance(n.args[1], ast.Constant) and n.args[1].value is False:
+                            strict = True
+                        if isinstance(n, ast.Assign) and isinstance(n.targets[0], ast.Subscript) and isinstance(n.targets[0].value, ast.Name) \
+                                and n.targets[0].value.id == k.value.id and isinstance(n.targets[0].slice, ast.Constant) \
+                                and n.targets[0].slice.value == "allow_nan" and isinstance(n.value, ast.Constant) and n.value.value is False:
+                            strict = True
+            if strict:
+                out.append(Site(f, c, c.args[0], "json.dumps(allow_nan=False)"))
+                continue
         # Counter(a).most_common(1)[0]
         if isinstance(func, ast.Attribute) and func.attr == "most_common" and isinstance(func.value, ast.Call) \
                 and repo.dotted(f, func.value.func) == "collections.Counter" and func.value.args:
@@ -449,6 +467,9 @@ def actual_for(target, call, pname):
 
 def discharge_reduction(repo, site, entry_public=True, depth=2):
     """Decide a partial-operation site.  Returns (ok, why, chain)."""
+    if site.kind.startswith("json.dumps(allow_nan=False)"):
+        return False, ("json.dumps with allow_nan=False raises ValueError for NaN and +/-inf, which are ordinary cell values "
+                       "(float columns use NaN as their missing value)"), []
     ok, why = nonempty(repo, site.fn, site.operand, site.node)
     if ok:
         return True, f"operand {norm(site.operand)} is non-empty: {why}", []
